@@ -189,38 +189,58 @@ deriving Repr, Inhabited
 def BuildSt.lookup (b : BuildSt) (c : List Nat) : Option Nat := (b.map.find? fun p => p.1 == c).map (·.2)
 def BuildSt.closureOf (b : BuildSt) (id : Nat) : List Nat := ((b.map.find? fun p => p.2 == id).map (·.1)).getD []
 
-/-- one target of the state being expanded -/
-def buildStep (m : MNfa) (src : Nat) (b : BuildSt) (t : Nat × Nat) : BuildSt :=
-  let cl := m.epsClosure t.2
-  let (b1, id) := match b.lookup cl with
-    | some id => (b, id)
-    | none => ({ b with map := b.map ++ [(cl, b.map.length)] }, b.map.length)
-  let tid := match m.findNfa t.2 with | some p => p.1 | none => 0
-  let accepting := cl.any fun s => m.any fun p => p.2.fin == s
-  let b2 := if accepting && !b1.acc.contains (id, tid) then { b1 with acc := b1.acc ++ [(id, tid)] } else b1
-  { b2 with trans := if b2.trans.contains (src, t.1, id) then b2.trans else b2.trans ++ [(src, t.1, id)] }
+/-- a closure containing the end state of some pattern -/
+def MNfa.accepting (m : MNfa) (cl : List Nat) : Bool := cl.any fun s => m.any fun p => p.2.fin == s
+
+/-- the terminal of the pattern whose NFA contains the state -/
+def MNfa.tidOf (m : MNfa) (t : Nat) : Nat := match m.findNfa t with | some p => p.1 | none => 0
+
+/-- the state id of a closure: the existing one or the next free id -/
+def BuildSt.idFor (b : BuildSt) (cl : List Nat) : Nat := (b.lookup cl).getD b.map.length
+
+/-- what the two closure constructions (`From<MultiPatternNfa>`, `From<Nfa>`) differ in: the closure
+    of an NFA state, the match transitions of a closure, acceptance of a closure, terminal of a target -/
+structure Gen where
+  clos : Nat → List Nat
+  tr : List Nat → List (Nat × Nat)
+  accf : List Nat → Bool
+  tidf : Nat → Nat
+
+/-- one target of the state being expanded: register the closure of the target (if new), mark it
+    accepting with the terminal of the target's pattern, add the transition -/
+def genStep (g : Gen) (src : Nat) (b : BuildSt) (t : Nat × Nat) : BuildSt :=
+  { map := if (b.lookup (g.clos t.2)).isSome then b.map
+           else b.map ++ [(g.clos t.2, b.map.length)],
+    acc := if g.accf (g.clos t.2) && !b.acc.contains (b.idFor (g.clos t.2), g.tidf t.2)
+           then b.acc ++ [(b.idFor (g.clos t.2), g.tidf t.2)] else b.acc,
+    trans := if b.trans.contains (src, t.1, b.idFor (g.clos t.2)) then b.trans
+             else b.trans ++ [(src, t.1, b.idFor (g.clos t.2))] }
 
 /-- the queue is the sequence of state ids in creation order -/
-def buildLoop (m : MNfa) : Nat → Nat → BuildSt → BuildSt
+def genLoop (g : Gen) : Nat → Nat → BuildSt → BuildSt
   | 0, _, b => b
   | fuel + 1, cur, b =>
     if cur < b.map.length then
-      buildLoop m fuel (cur + 1) ((m.matchTransitions (b.closureOf cur)).foldl (buildStep m cur) b)
+      genLoop g fuel (cur + 1) ((g.tr (b.closureOf cur)).foldl (genStep g cur) b)
     else b
 
-def totalStates (m : MNfa) : Nat := 1 + (m.map fun p => p.2.states.length).sum
-
-/-- `impl From<MultiPatternNfa> for CompiledDfa` without the final minimization; transitions of a
-    state in insertion order (the Rust code keeps them in a hash set: compared as sets) -/
-def buildDfa (m : MNfa) (prio : List Nat) : Dfa :=
-  let b := buildLoop m (totalStates m + 1) 0 ⟨[(m.epsClosure 0, 0)], [], []⟩
-  let n := b.map.length
-  { trans := (List.range n).map fun s => (b.trans.filter fun t => t.1 == s).map fun t => (t.2.1, t.2.2),
-    ends := (List.range n).map fun s =>
+/-- the automaton read off the final worklist state; transitions of a state in insertion order (the
+    Rust code keeps them in a hash set: compared as sets) -/
+def mkDfa (b : BuildSt) (prio : List Nat) : Dfa :=
+  { trans := (List.range b.map.length).map fun s => (b.trans.filter fun t => t.1 == s).map fun t => (t.2.1, t.2.2),
+    ends := (List.range b.map.length).map fun s =>
       match (b.acc.filter fun a => a.1 == s).getLast? with
       | some a => (true, a.2)
       | none => (false, 0),
     prio := prio }
+
+def MNfa.gen (m : MNfa) : Gen := ⟨m.epsClosure, m.matchTransitions, m.accepting, m.tidOf⟩
+
+def totalStates (m : MNfa) : Nat := 1 + (m.map fun p => p.2.states.length).sum
+
+/-- `impl From<MultiPatternNfa> for CompiledDfa` without the final minimization -/
+def buildDfa (m : MNfa) (prio : List Nat) : Dfa :=
+  mkDfa (genLoop m.gen (totalStates m + 1) 0 ⟨[(m.epsClosure 0, 0)], [], []⟩) prio
 
 /-! ### a single NFA (lookahead automata): `impl From<Nfa> for CompiledDfa` -/
 
@@ -234,31 +254,12 @@ def insertPair (x : Nat × Nat) : List (Nat × Nat) → List (Nat × Nat)
 
 def sortPairs (l : List (Nat × Nat)) : List (Nat × Nat) := l.foldl (fun acc x => insertPair x acc) []
 
-def buildStep1 (n : Nfa) (tid : Nat) (src : Nat) (b : BuildSt) (t : Nat × Nat) : BuildSt :=
-  let cl := n.epsClosure t.2
-  let (b1, id) := match b.lookup cl with
-    | some id => (b, id)
-    | none => ({ b with map := b.map ++ [(cl, b.map.length)] }, b.map.length)
-  let b2 := if cl.contains n.fin && !b1.acc.contains (id, tid) then { b1 with acc := b1.acc ++ [(id, tid)] } else b1
-  { b2 with trans := if b2.trans.contains (src, t.1, id) then b2.trans else b2.trans ++ [(src, t.1, id)] }
-
-def buildLoop1 (n : Nfa) (tid : Nat) : Nat → Nat → BuildSt → BuildSt
-  | 0, _, b => b
-  | fuel + 1, cur, b =>
-    if cur < b.map.length then
-      buildLoop1 n tid fuel (cur + 1)
-        ((sortPairs ((b.closureOf cur).flatMap fun s => (n.state s).trans)).foldl (buildStep1 n tid cur) b)
-    else b
+def Nfa.gen (n : Nfa) (tid : Nat) : Gen :=
+  ⟨n.epsClosure, fun cl => sortPairs (cl.flatMap fun s => (n.state s).trans), fun cl => cl.contains n.fin,
+    fun _ => tid⟩
 
 def buildDfa1 (n : Nfa) (tid : Nat) : Dfa :=
-  let b := buildLoop1 n tid (n.states.length + 2) 0 ⟨[(n.epsClosure n.start, 0)], [], []⟩
-  let k := b.map.length
-  { trans := (List.range k).map fun s => (b.trans.filter fun t => t.1 == s).map fun t => (t.2.1, t.2.2),
-    ends := (List.range k).map fun s =>
-      match (b.acc.filter fun a => a.1 == s).getLast? with
-      | some a => (true, a.2)
-      | none => (false, 0),
-    prio := [tid] }
+  mkDfa (genLoop (n.gen tid) (n.states.length + 2) 0 ⟨[(n.epsClosure n.start, 0)], [], []⟩) [tid]
 
 /-- a lookahead pattern (terminal id 0 of `Pattern::default()`) -/
 def compileLaPre (a : CAst) : Dfa := buildDfa1 (thompson a) 0
